@@ -36,7 +36,9 @@ def for_property(prop: str):
     Profile, struct_names, basic = _std()
     mods = {}
     # modules that handle wire data get the struct/bytes/int shims and the join rewrite
-    mods["aiortc.rtp"] = Profile(basic, rewrite={"join"})
+    rtp = dict(basic)
+    rtp["os"] = shims.os_shim
+    mods["aiortc.rtp"] = Profile(rtp, rewrite={"join"})
     mods["aiortc.utils"] = Profile({"unpack": shims.sx_unpack}, rewrite=())
     mods["aiortc.jitterbuffer"] = Profile({"range": shims.sx_range}, rewrite={"join"})
     sctp = dict(basic)
